@@ -212,6 +212,8 @@ def c10_extra(cases, verdicts):
             "accepted_documents": accepted, "later_stage_errors_ignored": e0, "entry_points": entries, "panics": panics}
 
 
+CLAIMED = True
+
 PROP = dict(
     proof_modules=["VrpProofs.C10", "VrpProofs.C10.Rules", "VrpProofs.C10.Algo", "VrpProofs.C10.Windows", "VrpProofs.C10.Lists"], model_modules=["VrpModel.C10", "VrpModel.Generated.C10Rules"], drv="drv_c10", bin="c10",
     nontrivial=c10_nontrivial, compare=c10_compare, extra_evidence=c10_extra, translators=[translate_c10_rules],
